@@ -462,8 +462,96 @@ let cmd_write () =
          | Err e -> Printf.printf "ERR %s\n" (err_name e))
     | _ -> failwith ("write: bad line " ^ l))
 
+(* ---------------- summary: a translated controller program + a history of delivered calls -> the summary (C09) ----------------
+   stdin: whitespace-separated tokens; see tools/summarycheck.py (emit_program, emit_events) for the grammar. ---------------- *)
+let toks : Stdlib.String.t list ref = ref []
+let tok () = match !toks with t :: r -> toks := r; t | [] -> failwith "summary: out of tokens"
+let tint () = int_of_string (tok ())
+let rec times n f = if n <= 0 then [] else let x = f () in x :: times (n - 1) f
+let cs () = coq_string_of (tok ())
+let hexbytes h = bytes_of_string (unhex h)
+let rec rd_pv () : pyval =
+  let t = tok () in
+  match t with
+  | "T" -> PBool true | "F" -> PBool false | "N" -> PNone
+  | "l" -> let n = tint () in PList (times n rd_pv)
+  | "t" -> let n = tint () in PTuple (times n rd_pv)
+  | "d" -> let n = tint () in PDict (times n (fun () -> let k = rd_pv () in let v = rd_pv () in (k, v)))
+  | _ ->
+    let body = String.sub t 1 (String.length t - 1) in
+    (match t.[0] with
+     | 'i' -> PInt (z_of_string body)
+     | 'f' -> (match String.split_on_char ':' body with [m; e] -> PFloat (z_of_string m, z_of_string e) | _ -> failwith "float")
+     | 'b' -> PBytes (hexbytes body) | 's' -> PStr (hexbytes body) | 'o' -> POpaque (coq_string_of (unhex body))
+     | _ -> failwith ("summary: bad value token " ^ t))
+let rec rd_expr () : expr =
+  match tok () with
+  | "V" -> EVar (cs ()) | "ID" -> EEntId | "PROPS" -> EProps | "BL" -> EBL | "PLAYERS" -> EPlayers
+  | "FIELD" -> EField (cs ()) | "S" -> EStrC (coq_string_of (unhex (tok ()))) | "I" -> EIntC (z_of_string (tok ()))
+  | "IDX" -> let a = rd_expr () in let b = rd_expr () in EIdx (a, b)
+  | "ADD" -> let a = rd_expr () in let b = rd_expr () in EAdd (a, b)
+  | "LEN" -> ELen (rd_expr ())
+  | "TUP" -> let n = tint () in ETup (times n rd_expr)
+  | t -> failwith ("summary: bad expr token " ^ t)
+let rd_sstmt () : sstmt =
+  match tok () with
+  | "APPEND" -> let f = cs () in SAppend (f, rd_expr ())
+  | "SETDEF" -> let f = cs () in let n = tint () in SSetdef (f, times n rd_expr)
+  | "AUGADD" -> let f = cs () in let n = tint () in let ks = times n rd_expr in SAugAdd (f, ks, rd_expr ())
+  | "ASSIGN" -> let f = cs () in SAssign (f, rd_expr ())
+  | "ASSIGNDICT" -> let f = cs () in let n = tint () in SAssignDict (f, times n (fun () -> let k = cs () in (k, rd_expr ())))
+  | "LET" -> let x = cs () in SLet (x, rd_expr ())
+  | "ROSTER" -> let e = rd_expr () in SRoster (e, n_of_int (tint ()))
+  | "MAPSTRIP" -> SMapStrip (rd_expr ())
+  | t -> failwith ("summary: bad stmt token " ^ t)
+let rd_stmt () : stmt =
+  match tok () with
+  | "SIMPLE" -> Simple (rd_sstmt ())
+  | "FOR" -> let x = cs () in let e = rd_expr () in let n = tint () in SFor (x, e, times n rd_sstmt)
+  | t -> failwith ("summary: bad stmt token " ^ t)
+let expect s = let t = tok () in if t <> s then failwith ("summary: expected " ^ s ^ " got " ^ t)
+let rec show_pv (v : pyval) : Stdlib.String.t =
+  match v with
+  | PInt z -> "i" ^ string_of_z z
+  | PFloat (m, e) -> "f" ^ string_of_z m ^ ":" ^ string_of_z e
+  | PBool true -> "T" | PBool false -> "F" | PNone -> "N"
+  | PBytes b -> "b" ^ hex_of_bytes b | PStr b -> "s" ^ hex_of_bytes b
+  | PList l -> "l(" ^ String.concat "," (List.map show_pv l) ^ ")"
+  | PTuple l -> "t(" ^ String.concat "," (List.map show_pv l) ^ ")"
+  | PDict d -> "d(" ^ String.concat "," (List.map (fun (k, v) -> show_pv k ^ "=" ^ show_pv v) d) ^ ")"
+  | POpaque s -> "o" ^ hex_of_string (ocaml_string_of s)
+let cmd_summary () =
+  let buf = Buffer.create 65536 in (try while true do Buffer.add_channel buf stdin 1 done with End_of_file -> ());
+  let all = Buffer.contents buf in
+  toks := List.filter (fun x -> x <> "") (String.split_on_char ' ' (String.map (fun c -> if c = '\n' || c = '\t' || c = '\r' then ' ' else c) all));
+  expect "CTL"; expect "INIT";
+  let init = times (tint ()) (fun () -> let f = cs () in (f, rd_pv ())) in
+  expect "HANDLERS";
+  let handlers = times (tint ()) (fun () ->
+    let k = cs () in let params = times (tint ()) cs in let body = times (tint ()) rd_stmt in (k, { h_params = params; h_body = body })) in
+  expect "MAPS";
+  let maps = times (tint ()) (fun () -> let pt = n_of_int (tint ()) in let m = times (tint ()) (fun () -> let k = z_of_string (tok ()) in (k, cs ())) in (pt, m)) in
+  expect "UNI"; let uni = tint () = 1 in
+  expect "INFO"; let info = times (tint ()) (fun () -> let a = cs () in (a, cs ())) in
+  let ctl = { c_init = init; c_handlers = handlers; c_maps = maps; c_unicodize = uni; c_info = info } in
+  expect "MODE"; let strict = tok () = "strict" in
+  expect "EVENTS";
+  let evs = times (tint ()) (fun () ->
+    let k = cs () in let id = z_of_string (tok ()) in
+    let pos = times (tint ()) rd_pv in
+    let kw = times (tint ()) (fun () -> let n = cs () in (n, rd_pv ())) in
+    let props = (match rd_pv () with PDict d -> d | _ -> []) in
+    let bl = (match rd_pv () with PDict d -> d | _ -> []) in
+    { ev_key = k; ev_id = id; ev_pos = pos; ev_kw = kw; ev_props = props; ev_bl = bl }) in
+  let (st, errs) =
+    if strict then (match run_events_strict ctl (init_state ctl) evs with (st, Some e) -> (st, [e]) | (st, None) -> (st, []))
+    else run_events ctl (init_state ctl) evs in
+  List.iter (fun (k, v) -> Printf.printf "FIELD %s %s\n" (ocaml_string_of k) (show_pv v)) (summary ctl st);
+  Printf.printf "ERRS %s\n" (String.concat " " (List.map err_name errs))
+
 let () =
   match Sys.argv.(1) with
+  | "summary" -> cmd_summary ()
   | "write" -> cmd_write ()
   | "frames" -> cmd_frames ()
   | "defs" -> cmd_defs ()
